@@ -7,7 +7,7 @@ From V Require Import gen.F_online gen.K_client gen.C_client gen.C_rpc gen.K_rpc
 From V Require Import Model.Pdu Model.Request Model.Bind Model.Verification Model.Epm.
 From V Require Import Model.Handshake Model.Framing Model.Seal Model.Recv.
 From V Require Import Model.Types Model.Gkdi Model.Conversation.
-From V Require Import Flow.World_online Proofs.FlowClientLib Proofs.C17Consts Proofs.C17.
+From V Require Import Flow.World_online Proofs.FlowClientLib Proofs.C17Consts Proofs.C17 Proofs.C17Examples.
 Local Open Scope string_scope.
 Local Open Scope list_scope.
 Local Open Scope Z_scope.
@@ -29,7 +29,11 @@ Arguments k_strip_test : simpl never.
 
 Section Conv.
 Context (wrap : wrap_fn) (unwrap : unwrap_fn) (prov : provider) (legs : list leg) (dc : dc_script) (efuel : nat).
-Notation W := (WO wrap unwrap prov legs dc efuel).
+Context (server : list Z) (username password : option (list Z)) (auth_protocol : list Z).
+Notation WT := (WO wrap unwrap prov legs dc efuel server username password auth_protocol).
+Section AnyTranscript.
+Context (tr : transcript).
+Notation W := (WT tr).
 
 Definition ept_outer_body : list pstmt :=
   match nth 2 (pf_body k_flow_process_ept_map_result) SPass with SFor _ _ b => b | _ => [] end.
@@ -122,87 +126,278 @@ Proof.
 Qed.
 
 
+End AnyTranscript.
+
 Lemma ces_of_cev cs : ces_of (map cev cs) = Some cs.
 Proof. induction cs as [|c r IH]; [reflexivity|]. cbn. now rewrite IH. Qed.
 
 Lemma optb_of_optbv rk : optb_of (optbv rk) = Some rk.
 Proof. destruct rk; reflexivity. Qed.
 
-Lemma flow_sync_get_key fuel server sd rk l0 l1 l2 u p proto :
-  proto <> [] ->
-  run W fuel k_flow_sync_get_key [VS server; VB sd; optbv rk; VI l0; VI l1; VI l2; u; p; VS proto]
+Lemma bytes_eqb_refl a : bytes_eqb a a = true.
+Proof. induction a as [|x a IH]; [reflexivity|]. cbn. now rewrite Z.eqb_refl, IH. Qed.
+Lemma optstr_is_refl o : optstr_is (optsv o) o = true.
+Proof. destruct o; cbn; [apply bytes_eqb_refl|reflexivity]. Qed.
+Lemma sent_eqb_refl s : sent_eqb s s = true.
+Proof.
+  destruct s as [w [a|]]; unfold sent_eqb, wa_eqb; cbn; rewrite ?bytes_eqb_refl, ?eqb_reflx; reflexivity.
+Qed.
+
+(* rpc_request puts nothing on the wire only when it fails as a whole *)
+Lemma rpc_request_raise f auth sg ctx op stub vt stream sch e r :
+  rpc_request f wrap unwrap auth sg ctx op stub vt stream sch = (Raise e, r) -> r = Raise e.
+Proof. unfold rpc_request. destruct (send_request _ _ _ _ _ _ _); intro H; inversion H; reflexivity. Qed.
+
+(* ---- what the model's transcript holds at the three points the world checks ---- *)
+Definition epm_req_ctx (f : flavour) : Z := match f with Sync => k_onl_sync_epm_ctx c_onl_epm_ctx_id | Async => k_onl_async_epm_ctx c_onl_epm_ctx_id end.
+
+Lemma isd_phase_keeps f g t :
+  tr_ept_request (snd (isd_key_phase f wrap unwrap prov legs dc g t)) = tr_ept_request t /\
+  tr_port (snd (isd_key_phase f wrap unwrap prov legs dc g t)) = tr_port t.
+Proof.
+  unfold isd_key_phase.
+  destruct (bind_run true legs (ds_isd_srv dc) (context_ids isd_key_contexts)) as [[rs|e] s]; cbn; [|auto].
+  destruct (process_bind_result _ rs _); cbn; [|auto].
+  destruct (isd_request f wrap unwrap prov (sign s) g (ds_getkey_stream dc) (ds_sched dc)) as [sr [rsp|e]]; cbn; auto.
+Qed.
+
+Lemma transcript_ept f sd rk l0 l1 l2 rs s u :
+  bind_run false [] (ds_epm_srv dc) (context_ids epm_contexts) = (Ok rs, s) ->
+  process_bind_result (context_ids epm_contexts) rs c_onl_epm_ctx_id = Ok u ->
+  tr_ept_request (snd (get_key_conversation f wrap unwrap prov legs dc sd rk l0 l1 l2))
+  = ok_opt (fst (rpc_request f wrap unwrap None (sign s) (epm_req_ctx f) c_onl_ept_map_opnum c_onl_ept_map_stub None
+                   (ds_ept_stream dc) (ds_sched dc))).
+Proof.
+  intros Hb Hp. unfold get_key_conversation, epm_req_ctx. rewrite Hb, Hp.
+  destruct (rpc_request f wrap unwrap None (sign s) _ c_onl_ept_map_opnum c_onl_ept_map_stub None (ds_ept_stream dc) (ds_sched dc))
+    as [sr [rsp|e]]; cbn; [|reflexivity].
+  destruct (process_ept_map_result _ _) as [[port tk]|e]; cbn; [|reflexivity].
+  rewrite (proj1 (isd_phase_keeps _ _ _)). reflexivity.
+Qed.
+
+Lemma transcript_port f sd rk l0 l1 l2 rs s u sr rsp port tk :
+  bind_run false [] (ds_epm_srv dc) (context_ids epm_contexts) = (Ok rs, s) ->
+  process_bind_result (context_ids epm_contexts) rs c_onl_epm_ctx_id = Ok u ->
+  rpc_request f wrap unwrap None (sign s) (epm_req_ctx f) c_onl_ept_map_opnum c_onl_ept_map_stub None (ds_ept_stream dc) (ds_sched dc)
+    = (sr, Ok rsp) ->
+  process_ept_map_result (S (List.length (rs_stub_data rsp))) (rs_stub_data rsp) = Ok (port, tk) ->
+  tr_port (snd (get_key_conversation f wrap unwrap prov legs dc sd rk l0 l1 l2)) = Some port.
+Proof.
+  intros Hb Hp Hr Hm. unfold get_key_conversation. rewrite Hb, Hp. fold (epm_req_ctx f). rewrite Hr. cbn. rewrite Hm.
+  rewrite (proj2 (isd_phase_keeps _ _ _)). reflexivity.
+Qed.
+
+Lemma transcript_getkey f sd rk l0 l1 l2 rs s u sr rsp port tk rs2 s2 u2 stub :
+  bind_run false [] (ds_epm_srv dc) (context_ids epm_contexts) = (Ok rs, s) ->
+  process_bind_result (context_ids epm_contexts) rs c_onl_epm_ctx_id = Ok u ->
+  rpc_request f wrap unwrap None (sign s) (epm_req_ctx f) c_onl_ept_map_opnum c_onl_ept_map_stub None (ds_ept_stream dc) (ds_sched dc)
+    = (sr, Ok rsp) ->
+  process_ept_map_result (S (List.length (rs_stub_data rsp))) (rs_stub_data rsp) = Ok (port, tk) ->
+  bind_run true legs (ds_isd_srv dc) (context_ids isd_key_contexts) = (Ok rs2, s2) ->
+  process_bind_result (context_ids isd_key_contexts) rs2 c_onl_isd_ctx_id = Ok u2 ->
+  GetKey_pack (getkey_of f sd rk l0 l1 l2) = Ok stub ->
+  tr_getkey_request (snd (get_key_conversation f wrap unwrap prov legs dc sd rk l0 l1 l2))
+  = ok_opt (fst (rpc_request f wrap unwrap (Some prov) (sign s2) c_onl_isd_ctx_id c_onl_getkey_opnum stub (Some c_onl_vt)
+                   (ds_getkey_stream dc) (ds_sched dc))).
+Proof.
+  intros Hb Hp Hr Hm Hb2 Hp2 Hg. unfold get_key_conversation. rewrite Hb, Hp. fold (epm_req_ctx f). rewrite Hr. cbn. rewrite Hm.
+  unfold isd_key_phase. rewrite Hb2, Hp2. unfold isd_request. rewrite Hg.
+  destruct (rpc_request f wrap unwrap (Some prov) (sign s2) c_onl_isd_ctx_id c_onl_getkey_opnum stub (Some c_onl_vt) (ds_getkey_stream dc) (ds_sched dc))
+    as [sr2 [rsp2|e]]; reflexivity.
+Qed.
+
+
+(* _sync_get_key IS get_key_conversation at Sync, in the checking world built from the model's own transcript: the server and the
+   credentials reach create_rpc_connection unchanged, the second connection goes to the port the model records (tr_port), each bind offers
+   the model's contexts, and the two requests put on the wire (and hand to the security context) exactly the model's REQUEST PDUs
+   (tr_ept_request, tr_getkey_request).  Precondition: auth_protocol is a non-empty string. *)
+Lemma flow_sync_get_key fuel sd rk l0 l1 l2 :
+  auth_protocol <> [] ->
+  run (WT (snd (get_key_conversation Sync wrap unwrap prov legs dc sd rk l0 l1 l2))) fuel k_flow_sync_get_key
+    [VS server; VB sd; optbv rk; VI l0; VI l1; VI l2; optsv username; optsv password; VS auth_protocol]
   = (let* e := fst (get_key_conversation Sync wrap unwrap prov legs dc sd rk l0 l1 l2) in Ok (VO (OEnvl e))).
 Proof.
-  intro Hp. destruct proto as [|p0 proto]; [congruence|]. clear Hp.
+  intro Hp. destruct auth_protocol as [|p0 proto] eqn:Eproto; [congruence|]. clear Hp.
   assert (I1 : forall (a : pv obj), PySlice.index [a] 0 = Ok a) by reflexivity.
   assert (I2 : forall (a b : pv obj), PySlice.index [a; b] 0 = Ok a) by reflexivity.
-  unfold get_key_conversation, isd_key_phase, isd_request, getkey_of, k_onl_sync_epm_ctx,
-    k_onl_getkey_arg0, k_onl_getkey_arg1, k_onl_getkey_arg2, k_onl_getkey_arg3, k_onl_getkey_arg4.
+  pose proof (transcript_ept Sync sd rk l0 l1 l2) as Tept.
+  pose proof (transcript_port Sync sd rk l0 l1 l2) as Tport.
+  pose proof (transcript_getkey Sync sd rk l0 l1 l2) as Tgk.
+  remember (snd (get_key_conversation Sync wrap unwrap prov legs dc sd rk l0 l1 l2)) as tr eqn:Etr. clear Etr.
+  unfold epm_req_ctx, k_onl_sync_epm_ctx, getkey_of, k_onl_getkey_arg0, k_onl_getkey_arg1, k_onl_getkey_arg2, k_onl_getkey_arg3, k_onl_getkey_arg4 in Tept, Tport, Tgk.
+  change c_onl_epm_ctx_id with 0 in Tept, Tport, Tgk. change c_onl_isd_ctx_id with 0 in Tgk.
+  cbn [context_ids epm_contexts isd_key_contexts map ce_context_id] in Tept, Tport, Tgk.
+  unfold get_key_conversation, isd_key_phase, isd_request, getkey_of, k_onl_sync_epm_ctx, k_onl_getkey_arg0, k_onl_getkey_arg1, k_onl_getkey_arg2, k_onl_getkey_arg3, k_onl_getkey_arg4.
   unfold run. cbn [bind_params pf_params pf_body k_flow_sync_get_key].
   change c_onl_epm_ctx_id with 0. change c_onl_isd_ctx_id with 0.
-  cbn. rewrite I1. cbn. unfold conn_bind. cbn.
+  cbn. unfold open_epm. rewrite bytes_eqb_refl. cbn. rewrite I1. cbn. unfold conn_bind. cbn.
   destruct (bind_run false [] (ds_epm_srv dc) [0]) as [[rs|e] s] eqn:Eb; cbn; [|reflexivity].
   destruct (process_bind_result [0] rs 0) as [u0|e] eqn:Ep; cbn; [|reflexivity].
+  specialize (Tept rs s u0 eq_refl Ep). specialize (Tport rs s u0). specialize (Tgk rs s u0).
   rewrite (proj1 ept_map_packed). unfold conn_request. cbn.
   destruct (rpc_request Sync wrap unwrap None (sign s) 0 c_onl_ept_map_opnum c_onl_ept_map_stub None (ds_ept_stream dc) (ds_sched dc))
-    as [sent [rsp|e]] eqn:Er; cbn; [|reflexivity].
+    as [[sent|e1] resp] eqn:Er; cbn in Tept |- *.
+  2:{ rewrite (rpc_request_raise _ _ _ _ _ _ _ _ _ _ _ Er). reflexivity. }
+  rewrite Tept, sent_eqb_refl. destruct resp as [rsp|e]; cbn; [|reflexivity].
   destruct (process_ept_map_result (S (Datatypes.length (rs_stub_data rsp))) (rs_stub_data rsp)) as [[port tk]|e] eqn:Em; cbn; [|reflexivity].
+  assert (Hport : tr_port tr = Some port) by (eapply Tport; first [reflexivity | eassumption]). clear Tport.
+  unfold open_isd. rewrite Hport, !bytes_eqb_refl, !optstr_is_refl. cbn. repeat (rewrite Z.eqb_refl; cbn).
+
+
   rewrite I2. cbn. unfold conn_bind. cbn.
   destruct (bind_run true legs (ds_isd_srv dc) [0; 1]) as [[rs2|e] s2] eqn:Eb2; cbn; [|reflexivity].
   destruct (process_bind_result [0; 1] rs2 0) as [u1|e] eqn:Ep2; cbn; [|reflexivity].
-  destruct rk as [rkb|]; cbn;
+  destruct rk as [rkb|]; cbn in Tgk |- *;
   (destruct (GetKey_pack {| gk_target_sd := sd; gk_root_key_id := _; gk_l0 := l0; gk_l1 := l1; gk_l2 := l2 |}) as [stub|e] eqn:Eg;
     cbn; [|reflexivity];
+  assert (Hgk : tr_getkey_request tr = ok_opt (fst (rpc_request Sync wrap unwrap (Some prov) (sign s2) 0 c_onl_getkey_opnum stub (Some c_onl_vt) (ds_getkey_stream dc) (ds_sched dc))))
+    by (eapply Tgk; first [reflexivity | eassumption]); clear Tgk;
   rewrite (proj1 vt_packed); unfold bytes in *;
   destruct (rpc_request Sync wrap unwrap (Some prov) (sign s2) 0 c_onl_getkey_opnum stub (Some c_onl_vt) (ds_getkey_stream dc) (ds_sched dc))
-    as [sent2 [rsp2|e]] eqn:Er2; cbn; [|reflexivity];
-  destruct (process_get_key_result _ _) as [env|e]; reflexivity).
+    as [[sent2|e2] resp2] eqn:Er2; cbn in Hgk |- *;
+  [ rewrite Hgk, sent_eqb_refl; destruct resp2 as [rsp2|e]; cbn; [|reflexivity];
+    destruct (process_get_key_result _ _) as [env|e]; reflexivity
+  | rewrite (rpc_request_raise _ _ _ _ _ _ _ _ _ _ _ Er2); reflexivity ]).
 Qed.
 
-Lemma flow_async_get_key fuel server sd rk l0 l1 l2 u p proto :
-  proto <> [] ->
-  run W fuel k_flow_async_get_key [VS server; VB sd; optbv rk; VI l0; VI l1; VI l2; u; p; VS proto]
+(* _async_get_key IS get_key_conversation at Async, in the checking world built from the model's own transcript: the server and the
+   credentials reach create_rpc_connection unchanged, the second connection goes to the port the model records (tr_port), each bind offers
+   the model's contexts, and the two requests put on the wire (and hand to the security context) exactly the model's REQUEST PDUs
+   (tr_ept_request, tr_getkey_request).  Precondition: auth_protocol is a non-empty string. *)
+Lemma flow_async_get_key fuel sd rk l0 l1 l2 :
+  auth_protocol <> [] ->
+  run (WT (snd (get_key_conversation Async wrap unwrap prov legs dc sd rk l0 l1 l2))) fuel k_flow_async_get_key
+    [VS server; VB sd; optbv rk; VI l0; VI l1; VI l2; optsv username; optsv password; VS auth_protocol]
   = (let* e := fst (get_key_conversation Async wrap unwrap prov legs dc sd rk l0 l1 l2) in Ok (VO (OEnvl e))).
 Proof.
-  intro Hp. destruct proto as [|p0 proto]; [congruence|]. clear Hp.
+  intro Hp. destruct auth_protocol as [|p0 proto] eqn:Eproto; [congruence|]. clear Hp.
   assert (I1 : forall (a : pv obj), PySlice.index [a] 0 = Ok a) by reflexivity.
   assert (I2 : forall (a b : pv obj), PySlice.index [a; b] 0 = Ok a) by reflexivity.
-  unfold get_key_conversation, isd_key_phase, isd_request, getkey_of, k_onl_async_epm_ctx,
-    k_onl_agetkey_arg0, k_onl_agetkey_arg1, k_onl_agetkey_arg2, k_onl_agetkey_arg3, k_onl_agetkey_arg4.
+  pose proof (transcript_ept Async sd rk l0 l1 l2) as Tept.
+  pose proof (transcript_port Async sd rk l0 l1 l2) as Tport.
+  pose proof (transcript_getkey Async sd rk l0 l1 l2) as Tgk.
+  remember (snd (get_key_conversation Async wrap unwrap prov legs dc sd rk l0 l1 l2)) as tr eqn:Etr. clear Etr.
+  unfold epm_req_ctx, k_onl_async_epm_ctx, getkey_of, k_onl_agetkey_arg0, k_onl_agetkey_arg1, k_onl_agetkey_arg2, k_onl_agetkey_arg3, k_onl_agetkey_arg4 in Tept, Tport, Tgk.
+  change c_onl_epm_ctx_id with 0 in Tept, Tport, Tgk. change c_onl_isd_ctx_id with 0 in Tgk.
+  cbn [context_ids epm_contexts isd_key_contexts map ce_context_id] in Tept, Tport, Tgk.
+  unfold get_key_conversation, isd_key_phase, isd_request, getkey_of, k_onl_async_epm_ctx, k_onl_agetkey_arg0, k_onl_agetkey_arg1, k_onl_agetkey_arg2, k_onl_agetkey_arg3, k_onl_agetkey_arg4.
   unfold run. cbn [bind_params pf_params pf_body k_flow_async_get_key].
   change c_onl_epm_ctx_id with 0. change c_onl_isd_ctx_id with 0.
-  cbn. rewrite I1. cbn. unfold conn_bind. cbn.
+  cbn. unfold open_epm. rewrite bytes_eqb_refl. cbn. rewrite I1. cbn. unfold conn_bind. cbn.
   destruct (bind_run false [] (ds_epm_srv dc) [0]) as [[rs|e] s] eqn:Eb; cbn; [|reflexivity].
   destruct (process_bind_result [0] rs 0) as [u0|e] eqn:Ep; cbn; [|reflexivity].
+  specialize (Tept rs s u0 eq_refl Ep). specialize (Tport rs s u0). specialize (Tgk rs s u0).
   rewrite (proj1 ept_map_packed). unfold conn_request. cbn.
   destruct (rpc_request Async wrap unwrap None (sign s) 0 c_onl_ept_map_opnum c_onl_ept_map_stub None (ds_ept_stream dc) (ds_sched dc))
-    as [sent [rsp|e]] eqn:Er; cbn; [|reflexivity].
+    as [[sent|e1] resp] eqn:Er; cbn in Tept |- *.
+  2:{ rewrite (rpc_request_raise _ _ _ _ _ _ _ _ _ _ _ Er). reflexivity. }
+  rewrite Tept, sent_eqb_refl. destruct resp as [rsp|e]; cbn; [|reflexivity].
   destruct (process_ept_map_result (S (Datatypes.length (rs_stub_data rsp))) (rs_stub_data rsp)) as [[port tk]|e] eqn:Em; cbn; [|reflexivity].
+  assert (Hport : tr_port tr = Some port) by (eapply Tport; first [reflexivity | eassumption]). clear Tport.
+  unfold open_isd. rewrite Hport, !bytes_eqb_refl, !optstr_is_refl. cbn. repeat (rewrite Z.eqb_refl; cbn).
   rewrite I2. cbn. unfold conn_bind. cbn.
   destruct (bind_run true legs (ds_isd_srv dc) [0; 1]) as [[rs2|e] s2] eqn:Eb2; cbn; [|reflexivity].
   destruct (process_bind_result [0; 1] rs2 0) as [u1|e] eqn:Ep2; cbn; [|reflexivity].
-  destruct rk as [rkb|]; cbn;
+  destruct rk as [rkb|]; cbn in Tgk |- *;
   (destruct (GetKey_pack {| gk_target_sd := sd; gk_root_key_id := _; gk_l0 := l0; gk_l1 := l1; gk_l2 := l2 |}) as [stub|e] eqn:Eg;
     cbn; [|reflexivity];
+  assert (Hgk : tr_getkey_request tr = ok_opt (fst (rpc_request Async wrap unwrap (Some prov) (sign s2) 0 c_onl_getkey_opnum stub (Some c_onl_vt) (ds_getkey_stream dc) (ds_sched dc))))
+    by (eapply Tgk; first [reflexivity | eassumption]); clear Tgk;
   rewrite (proj1 vt_packed); unfold bytes in *;
   destruct (rpc_request Async wrap unwrap (Some prov) (sign s2) 0 c_onl_getkey_opnum stub (Some c_onl_vt) (ds_getkey_stream dc) (ds_sched dc))
-    as [sent2 [rsp2|e]] eqn:Er2; cbn; [|reflexivity];
-  destruct (process_get_key_result _ _) as [env|e]; reflexivity).
+    as [[sent2|e2] resp2] eqn:Er2; cbn in Hgk |- *;
+  [ rewrite Hgk, sent_eqb_refl; destruct resp2 as [rsp2|e]; cbn; [|reflexivity];
+    destruct (process_get_key_result _ _) as [env|e]; reflexivity
+  | rewrite (rpc_request_raise _ _ _ _ _ _ _ _ _ _ _ Er2); reflexivity ]).
 Qed.
 
-
-(* sync = async on the SOURCE: both functions are the same model function at their flavour, and the two flavours of the model coincide
-   whenever the two receive loops deliver the same PDUs (Proofs/C17.flavours_agree; C14 proves that premise for every well-formed reply
-   and every segmentation) *)
-Lemma flow_get_key_sync_async fuel server sd rk l0 l1 l2 u p proto :
-  proto <> [] ->
+(* sync = async on the SOURCE: both functions are the same model function at their flavour (each in the checking world of its own
+   transcript), and the two flavours of the model coincide -- results AND transcripts -- whenever the two receive loops deliver the same
+   PDUs (Proofs/C17.flavours_agree; C14 proves that premise for every well-formed reply and every segmentation) *)
+Lemma flow_get_key_sync_async fuel sd rk l0 l1 l2 :
+  auth_protocol <> [] ->
   recv_pdu Sync (ds_ept_stream dc) (ds_sched dc) = recv_pdu Async (ds_ept_stream dc) (ds_sched dc) ->
   recv_pdu Sync (ds_getkey_stream dc) (ds_sched dc) = recv_pdu Async (ds_getkey_stream dc) (ds_sched dc) ->
-  run W fuel k_flow_sync_get_key [VS server; VB sd; optbv rk; VI l0; VI l1; VI l2; u; p; VS proto]
-  = run W fuel k_flow_async_get_key [VS server; VB sd; optbv rk; VI l0; VI l1; VI l2; u; p; VS proto].
+  run (WT (snd (get_key_conversation Sync wrap unwrap prov legs dc sd rk l0 l1 l2))) fuel k_flow_sync_get_key
+    [VS server; VB sd; optbv rk; VI l0; VI l1; VI l2; optsv username; optsv password; VS auth_protocol]
+  = run (WT (snd (get_key_conversation Async wrap unwrap prov legs dc sd rk l0 l1 l2))) fuel k_flow_async_get_key
+    [VS server; VB sd; optbv rk; VI l0; VI l1; VI l2; optsv username; optsv password; VS auth_protocol].
 Proof.
   intros Hp H1 H2. rewrite flow_sync_get_key, flow_async_get_key by exact Hp.
   rewrite (flavours_agree wrap unwrap prov legs dc sd rk l0 l1 l2 H1 H2). reflexivity.
 Qed.
 
 End Conv.
+
+(* ---- the ties are about the requests, not only about their number: two mutants of the regenerated _sync_get_key ------------------- *)
+Fixpoint map_pexp (g : pexp -> pexp) (e : pexp) : pexp :=
+  g match e with
+    | PAttr e' a => PAttr (map_pexp g e') a
+    | PCall f args => PCall f (map (map_pexp g) args)
+    | PMeth m recv args => PMeth m (map_pexp g recv) (map (map_pexp g) args)
+    | PCmp op a b => PCmp op (map_pexp g a) (map_pexp g b)
+    | PNot e' => PNot (map_pexp g e')
+    | PAnd a b => PAnd (map_pexp g a) (map_pexp g b)
+    | POr a b => POr (map_pexp g a) (map_pexp g b)
+    | PBin op a b => PBin op (map_pexp g a) (map_pexp g b)
+    | PNeg e' => PNeg (map_pexp g e')
+    | PTuple l => PTuple (map (map_pexp g) l)
+    | PList l => PList (map (map_pexp g) l)
+    | PIfExp c a b => PIfExp (map_pexp g c) (map_pexp g a) (map_pexp g b)
+    | PSub e' i => PSub (map_pexp g e') (map_pexp g i)
+    | PSlice e' lo hi => PSlice (map_pexp g e') (map_pexp g lo) (map_pexp g hi)
+    | PComp elt xs it conds => PComp (map_pexp g elt) xs (map_pexp g it) (map (map_pexp g) conds)
+    | other => other
+    end.
+Fixpoint map_pstmt (g : pexp -> pexp) (s : pstmt) : pstmt :=
+  match s with
+  | SAssign xs e => SAssign xs (map_pexp g e)
+  | SSetAttr x a e => SSetAttr x a (map_pexp g e)
+  | SReturn e => SReturn (map_pexp g e)
+  | SIf c a b => SIf (map_pexp g c) (map (map_pstmt g) a) (map (map_pstmt g) b)
+  | SExpr e => SExpr (map_pexp g e)
+  | SWhile c body => SWhile (map_pexp g c) (map (map_pstmt g) body)
+  | SFor xs it body => SFor xs (map_pexp g it) (map (map_pstmt g) body)
+  | SWith ctx x body => SWith (map_pexp g ctx) x (map (map_pstmt g) body)
+  | other => other
+  end.
+Definition mutate (g : pexp -> pexp) (f : pfun) : pfun := {| pf_params := pf_params f; pf_body := map (map_pstmt g) (pf_body f) |}.
+
+(* mutant 1: the second connection is opened to port 0 instead of isd_key_port *)
+Definition mutant_port0 : pfun :=
+  mutate (fun e => match e with PName "isd_key_port" => PInt 0 | _ => e end) k_flow_sync_get_key.
+(* mutant 2: ept_map goes out on context 7 / opnum 9, GetKey on context 3 / opnum 5 *)
+Definition mutant_ctx_opnum : pfun :=
+  mutate (fun e => match e with
+                   | PMeth "request" r [_; _; stub] => PMeth "request" r [PInt 7; PInt 9; stub]
+                   | PMeth "request/verification_trailer" r [_; _; stub; vt] => PMeth "request/verification_trailer" r [PInt 3; PInt 5; stub; vt]
+                   | _ => e
+                   end) k_flow_sync_get_key.
+
+Definition ex_server : list Z := [100; 99].
+Definition ex_proto : list Z := [110; 116; 108; 109].
+Definition ex_world : world (pv obj) :=
+  WO ex_wrap ex_unwrap ex_pv ex_legs ex_dc 0 ex_server None None ex_proto
+     (snd (get_key_conversation Sync ex_wrap ex_unwrap ex_pv ex_legs ex_dc ex_sd (Some ex_rk) 361 12 31)).
+Definition ex_args : list (pv obj) := [VS ex_server; VB ex_sd; VB ex_rk; VI 361; VI 12; VI 31; VN; VN; VS ex_proto].
+
+Lemma mutants_differ : mutant_port0 <> k_flow_sync_get_key /\ mutant_ctx_opnum <> k_flow_sync_get_key.
+Proof. split; intro H; apply (f_equal pf_body) in H; vm_compute in H; discriminate. Qed.
+
+Lemma mutant_port0_refused : run ex_world 0 mutant_port0 ex_args = Raise TypeError.
+Proof. vm_compute. reflexivity. Qed.
+
+Lemma mutant_ctx_opnum_refused : run ex_world 0 mutant_ctx_opnum ex_args = Raise TypeError.
+Proof. vm_compute. reflexivity. Qed.
+
+(* ... while the regenerated function itself goes through in the same world and returns the envelope of C17_conversation_example *)
+Lemma original_accepted : exists env, run ex_world 0 k_flow_sync_get_key ex_args = Ok (VO (OEnvl env)) /\ (gke_l0 env, gke_l1 env, gke_l2 env) = (361, 12, 31).
+Proof.
+  destruct conversation_runs as (env & t & wire & args & H1 & _ & _ & _ & _ & H6 & _ & _ & _ & _ & _).
+  exists env. split; [|exact H6].
+  unfold ex_world, ex_args. change (VB ex_rk) with (optbv (Some ex_rk)). change VN with (optsv None).
+  rewrite (flow_sync_get_key ex_wrap ex_unwrap ex_pv ex_legs ex_dc 0 ex_server None None ex_proto 0 ex_sd (Some ex_rk) 361 12 31) by discriminate.
+  unfold unprotect_get_key, k_onl_unprot_arg1, k_onl_unprot_arg2, k_onl_unprot_arg3, k_onl_unprot_arg4, k_onl_unprot_arg5 in H1.
+  cbn [kid_rkid kid_l0 kid_l1 kid_l2] in H1. unfold bytes in *.
+  rewrite H1. reflexivity.
+Qed.
